@@ -16,7 +16,9 @@ def fee_sites(prog, world, sem, roles):
         for hv in hl:
             groups.append(("Receive/%s/%s" % ("+".join(hooks), "+".join(toks)), subtree(vs_r, hv), hv))
     for name, vs, hv in groups:
-        for (vis, bb, e) in call_sites(sem, vs, lambda k: k == "cosmwasm_std::Uint128::checked_sub"):
+        for (vis, bb, e) in call_sites(sem, vs, lambda k: k in ("cosmwasm_std::Uint128::checked_sub", "std::ops::Sub::sub")):
+            if len(e.args) != 2:
+                continue
             fee = world.ident(e.args[1], expand_ws=False)
             if fee.op == "call" and fee.info == "std::cmp::Ord::min":
                 has_fee = find(world.norm(fee, 0, False), lambda y: roles.role(y) == ("params", "peg_recovery_fee"))
